@@ -163,7 +163,11 @@ func (ex *Exec) runRoot() {
 	}
 	// "called(<callee>)" in a clause: a flag per named callee, false on entry, set at every call of it
 	if ct != nil {
-		for _, cl := range append(append([]Clause{}, ct.Ensures...), ct.AtExit...) {
+		cls := append(append([]Clause{}, ct.Ensures...), ct.AtExit...)
+		for _, cs := range ct.CallSites {
+			cls = append(cls, cs.Clause)
+		}
+		for _, cl := range cls {
 			for _, mm := range calledRe.FindAllStringSubmatch(cl.Src, -1) {
 				ex.heapSet(st, "G|called|"+mm[1], sBool, "false")
 			}
